@@ -647,7 +647,9 @@ func register(sc *scenario) {
 
 // alsoUnder runs a scenario under another property as well (C12: rejecting or losing a connection
 // at any stage of the handshake never stops a listener from accepting or a dialer from redialling;
-// C15: a conformant peer is served beside non-conformant ones).
+// C15: a conformant peer is served beside non-conformant ones; C13: while a peer is silent before /
+// during the TLS handshake, before the SP header or before the WebSocket upgrade, every other
+// connection still gets its Attaching / Attached and is served).
 func alsoUnder(prop string, sc *scenario) {
 	ekit.Register(prop, ekit.Scenario{Name: sc.name, Run: func(st *ekit.Stats, tier string) { runScenario(sc, st, tier) }})
 }
@@ -657,6 +659,8 @@ func registerAll() {
 	alsoUnder("C12", scWS)
 	alsoUnder("C15", scWS)
 	alsoUnder("C15", scHandshake)
+	alsoUnder("C13", scHandshake)
+	alsoUnder("C13", scWS)
 	register(scHandshake)
 	register(scMessage)
 	register(scWS)
